@@ -1016,12 +1016,16 @@ def coverage(stats, params):
         'indeterminate': stats.counters('indeterminate.'),
         'simulated_time_steps': stats.counters('steps.'),
         'faults_fired': stats.counters('fault.'),
+        'host_function_declarations': stats.counters('host_decl.'),
         'probes': stats.counters('probe.'),
         'max': stats.counters('max:'),
         'real_components': ['every registered function of the default and '
                             'legacy context chains (payloads wrapped by a '
-                            'measuring shim), yaqltypes, runner, utils '
-                            'limit_iterable / limit_memory_usage, finalizer'],
+                            'measuring shim), yaqltypes (incl. AnyOf / Chain '
+                            '/ NotOfType around host-declared parameters), '
+                            'runner, utils limit_iterable / '
+                            'limit_memory_usage / convert_input_data, '
+                            'finalizer'],
         'stubbed_components': ['host streams (SimSource)', 'itertools '
                                'count/cycle/repeat inside queries/legacy '
                                '(budgeted SimSource proxies)',
